@@ -94,7 +94,8 @@ def render_config(cfg, syntax, style=None):
                 lines.append("%s%s%s" % (key, eq, toml_str(cfg[key], style.get("toml_literal"))))
         for key in BOOL_KEYS:
             if cfg.get(key) is not None:
-                lines.append("%s%s%s" % (key, eq, "true" if cfg[key] else "false"))
+                lines.append("%s%s%s%s" % (key, eq, "true" if cfg[key] else "false",
+                                           "  # " + style["comment"] if style.get("comment") and style.get("trailing_comments") else ""))
         if style.get("comment"):
             lines.append("# " + style["comment"])
         lines.append("")
